@@ -1,2 +1,2 @@
-(* C19: all lemmas (round trip and format, crash atomicity and reader totality, API-built trees, cleanup, the save sequence, histories of saves of several users). *)
-From Verif Require Export Proofs.C19_rt Proofs.C19_crash Proofs.C19_api Proofs.C19_clean Proofs.C19_save Proofs.C19_disk Proofs.C19_hist Proofs.C19_size.
+(* C19: all lemmas (round trip and format, crash atomicity and reader totality, API-built trees, cleanup, the save sequence, histories of saves of several users, kill points at system-call granularity). *)
+From Verif Require Export Proofs.C19_rt Proofs.C19_crash Proofs.C19_api Proofs.C19_clean Proofs.C19_save Proofs.C19_disk Proofs.C19_hist Proofs.C19_size Proofs.C19_calls.
